@@ -38,8 +38,9 @@ type dscenario struct {
 	hostKeyQ    bool
 	pass        string
 	key         string
-	nsxExtra    bool // NSX: foreign (non-Netspoc) objects on the manager
+	nsxExtra    bool     // NSX: foreign (non-Netspoc) objects on the manager
 	procEnv     []string // production-stack runs: extra environment of the process
+	panDirtyBy  string   // PAN-OS: candidate configuration carries uncommitted changes of this admin
 	prepNoop    bool     // IOS: the preparation commands change nothing (settings already there), so 'reload in' does not ask to save
 }
 
@@ -51,21 +52,21 @@ func (sc *dscenario) dn() string {
 }
 
 type drun struct {
-	hung      int // HTTPS: replies stalled inside the body on which the client never gave up
-	exit      int
-	stdout    string
-	stderr    string
-	panicMsg  string
-	trans     []sim.Rec
-	files     map[string]string
-	before    string
-	after     string
-	saved     int
-	commits   int
-	reloadPending bool
-	reloadArmed   int
-	sessions  int
-	points    int
+	hung                        int // HTTPS: replies stalled inside the body on which the client never gave up
+	exit                        int
+	stdout                      string
+	stderr                      string
+	panicMsg                    string
+	trans                       []sim.Rec
+	files                       map[string]string
+	before                      string
+	after                       string
+	saved                       int
+	commits                     int
+	reloadPending               bool
+	reloadArmed                 int
+	sessions                    int
+	points                      int
 	foreignBefore, foreignAfter string
 }
 
@@ -92,11 +93,11 @@ func (sc *dscenario) secretKey() string {
 }
 
 type runOpts struct {
-	dev     map[int]string
-	banners map[int]sim.BannerSpec
+	dev           map[int]string
+	banners       map[int]sim.BannerSpec
 	bannersByText map[string]sim.BannerSpec
-	keepWork bool   // do not recreate the base directory
-	testTime string // TEST_TIME of the run ("" = the fixed default)
+	keepWork      bool   // do not recreate the base directory
+	testTime      string // TEST_TIME of the run ("" = the fixed default)
 }
 
 // runDialogue executes the scenario once, with the given deviations.
@@ -145,7 +146,7 @@ func runDialogue(scr *core.Scratch, sc *dscenario, o runOpts) *drun {
 			panic(err)
 		}
 		web = &sim.HTTPS{Flavor: "panos", Hostname: host, Key: sc.secretKey(), User: "admin", Pass: sc.secretPass(),
-			Pan: pm, PanRun: pm.Clone(), HA: sc.ha, Dev: o.dev}
+			Pan: pm, PanRun: pm.Clone(), HA: sc.ha, Dev: o.dev, DirtyBy: sc.panDirtyBy}
 		r.before = pm.Devices.String()
 	case "NSX":
 		nm, err := nsxmodel.Load(sc.device)
@@ -302,7 +303,6 @@ func (r *drun) transcript() []string {
 	return l
 }
 
-
 var innerScratches = map[*core.Scratch]*core.Scratch{}
 
 func innerScratch(scr *core.Scratch) *core.Scratch {
@@ -320,7 +320,6 @@ func closeInnerScratches() {
 		delete(innerScratches, k)
 	}
 }
-
 
 // prepareWork creates the base directory of a run and returns the code
 // directory.
